@@ -86,7 +86,8 @@ pub struct ValueS { pub via: Ghost<VisCall> }
 pub struct Snap { pub enc: StructEncoding, pub et: EnumType, pub st: Option<SequenceType>, pub marker: Option<NonNativeType>, pub elem: Option<EncodingCodes>, pub rest: Seq<u8> }
 pub enum Ent { String, Str, Bytes, ByteBuf, Tuple(int), Map, DescribedIdent }
 pub enum Hand { Some_, Newtype, SeqDescribed { field_count: int, counter: int }, MapDescribed { field_count: int, counter: int }, SeqTransparent, Enum }
-pub enum Call { Parsed(VisCall), Entry(Ent, Snap), Handed(Hand, Snap) }
+/// `ParsedTimestamp`: the value came from parse_timestamp (constructor 0x83), not from parse_i64
+pub enum Call { Parsed(VisCall), ParsedTimestamp(i64), Entry(Ent, Snap), Handed(Hand, Snap) }
 
 pub struct Deserializer {
     pub reader: ReaderS,
@@ -120,9 +121,16 @@ macro_rules! parser {
         { unimplemented!() }
     )* } } }
 }
-parser!(parse_bool: bool => Bool, parse_i8: i8 => I8, parse_i16: i16 => I16, parse_i32: i32 => I32, parse_i64: i64 => I64, parse_timestamp: i64 => I64,
+parser!(parse_bool: bool => Bool, parse_i8: i8 => I8, parse_i16: i16 => I16, parse_i32: i32 => I32, parse_i64: i64 => I64,
         parse_u8: u8 => U8, parse_u16: u16 => U16, parse_u32: u32 => U32, parse_u64: u64 => U64, parse_f32: f32 => F32, parse_f64: f64 => F64, parse_char: char => Char);
 impl Deserializer {
+    /// parse_timestamp (unit READERS): constructor 0x83 and eight octets
+    #[verifier::external_body]
+    pub fn parse_timestamp(&mut self) -> (r: Result<i64, Error>)
+        ensures same_modes(*final(self), *old(self)),
+            r is Ok ==> final(self).called@ == old(self).called@.push(Call::ParsedTimestamp(r->Ok_0)),
+            r is Err ==> final(self).called@ == old(self).called@,
+    { unimplemented!() }
     /// parse_unit (unit READERS): Ok iff the value is a null; the null constructor is consumed
     #[verifier::external_body]
     pub fn parse_unit(&mut self) -> (r: Result<(), Error>)
@@ -435,7 +443,8 @@ impl Deserializer {
         old(self).non_native_type is Some && !(old(self).non_native_type->Some_0 is Timestamp) ==> final(self).non_native_type == old(self).non_native_type,
         final(self).seq_type == old(self).seq_type, final(self).enum_type == old(self).enum_type, final(self).struct_encoding == old(self).struct_encoding, final(self).elem_format_code == old(self).elem_format_code,
         final(self).called@.len() <= old(self).called@.len() + 1,
-        r is Ok ==> r->Ok_0.via@ is I64 && final(self).called@ == old(self).called@.push(Call::Parsed(r->Ok_0.via@)),       // [C03.entry.scalar-hand-over] [C05.entry.scalar-hand-over] a long (or the 64-bit count of a timestamp) is handed on as decoded
+        r is Ok ==> r->Ok_0.via@ is I64 && final(self).called@ == old(self).called@.push(
+            if old(self).non_native_type is Some && old(self).non_native_type->Some_0 is Timestamp { Call::ParsedTimestamp(r->Ok_0.via@->I64_0) } else { Call::Parsed(r->Ok_0.via@) }),       // [C03.entry.scalar-hand-over] [C05.entry.scalar-hand-over] [C05.timestamp.own-constructor] a long is decoded by the long parser, a value announced as timestamp by the timestamp parser (constructor 0x83: a timestamp is not a long on the wire), and handed on as decoded
 //@@ end
 
 //@@ fn file=serde_amqp/src/de.rs impl=`~de::Deserializer<'de>for&mutDeserializer<R>` name=deserialize_option
@@ -507,7 +516,7 @@ impl Deserializer {
             &&& name@ == UUID@ ==> one && c == Call::Entry(Ent::Bytes, with(NonNativeType::Uuid))
             &&& name@ == LAZY_VALUE@ ==> one && c == Call::Entry(Ent::ByteBuf, with(NonNativeType::LazyValue))
             &&& name@ == TRANSPARENT_VEC@ ==> one && c == Call::Handed(Hand::SeqTransparent, Snap { st: Some(SequenceType::TransparentVec), ..s0 })
-            &&& name@ == TIMESTAMP@ ==> (r is Ok ==> one && c is Parsed && c->Parsed_0 is I64 && r->Ok_0.via@ == c->Parsed_0)
+            &&& name@ == TIMESTAMP@ ==> (r is Ok ==> one && c is ParsedTimestamp && r->Ok_0.via@ == VisCall::I64(c->ParsedTimestamp_0))
             &&& !(name@ == SYMBOL@ || name@ == SYMBOL_REF@ || name@ == DECIMAL32@ || name@ == DECIMAL64@ || name@ == DECIMAL128@ || name@ == UUID@ || name@ == LAZY_VALUE@ || name@ == TRANSPARENT_VEC@ || name@ == TIMESTAMP@)
                     ==> one && c == Call::Handed(Hand::Newtype, s0)        // [C03.newtype.plain-newtype-transparent] any other newtype is transparent: its content is decoded with the deserializer as it was
         }),
@@ -538,6 +547,7 @@ impl Deserializer {
                     && (if eff_code(*old(self)) == Some(0x00u8) { c == Call::Handed(Hand::SeqDescribed { field_count: 1, counter: 0 }, s0) }        // [C05.composite.described-value-accepted] a plain tuple struct whose encoding starts with the described-type constructor 0x00 is read as described
                         else { c == Call::Entry(Ent::Tuple(len as int), s0) })                                                                    // otherwise as a list of `len` elements, with nothing consumed before the hand-over
         }),
+        eff_code(*old(self)) is Some && named_code(eff_code(*old(self))->Some_0) ==> final(self).called@.len() == old(self).called@.len() + 1,       // [C05.struct.every-form-accepted]
 //@@ end
 
 //@@ fn file=serde_amqp/src/de.rs impl=`~de::Deserializer<'de>for&mutDeserializer<R>` name=deserialize_struct
@@ -575,6 +585,8 @@ impl Deserializer {
                     &&& (k == 0x45 || k == 0xc0 || k == 0xd0 || k == 0xc1 || k == 0xd1 || k == 0x00)
                 })
         }),
+        name@ != DESCRIBED_BASIC@ && name@ != DESCRIBED_LIST@ && name@ != DESCRIBED_MAP@ && eff_code(*old(self)) is Some && ({ let k = eff_code(*old(self))->Some_0; k == 0x45 || k == 0xc0 || k == 0xd0 || k == 0xc1 || k == 0xd1 || k == 0x00 })
+            ==> final(self).called@.len() == old(self).called@.len() + 1,       // [C05.struct.every-form-accepted] every one of these forms -- list0, list8, list32, map8, map32, described -- is taken up (handed to the matching decoder), none is refused here
 //@@ end
 
 //@@ fn file=serde_amqp/src/de.rs impl=`~de::Deserializer<'de>for&mutDeserializer<R>` name=deserialize_enum
@@ -616,6 +628,13 @@ impl Deserializer {
                     &&& !(k == 0xc0 || k == 0xc1 || k == 0xd0 || k == 0xd1) ==> at.rest == u                                   // a unit variant (uint), a symbol, a described value: nothing consumed
                 })
         }),
+        name@ != VALUE@ && name@ != DESCRIPTOR@ && name@ != ARRAY@ && name@ != UNTAGGED_ENUM@ && eff_code(*old(self)) is Some && ({
+                let k = eff_code(*old(self))->Some_0;
+                let u = old(self).reader.rest@;
+                ||| (k == 0x70 || k == 0x52 || k == 0x43 || k == 0xa3 || k == 0xb3 || k == 0x00)
+                ||| ((k == 0xc0 || k == 0xc1) && old(self).elem_format_code is None && old(self).reader.reliable@ && u.len() >= 3 && u[2] == 2)
+                ||| ((k == 0xd0 || k == 0xd1) && old(self).elem_format_code is None && old(self).reader.reliable@ && u.len() >= 9 && sp_be32(u.subrange(5, 9)) == 2)
+            }) ==> final(self).called@.len() == old(self).called@.len() + 1,       // [C05.enum.every-form-accepted] a variant index in any uint width, a symbol, a described value, and a well-formed two-item list / map header in either width are all taken up: none is refused here
 //@@ end
 
 //@@ fn file=serde_amqp/src/de.rs impl=`~de::Deserializer<'de>for&mutDeserializer<R>` name=deserialize_identifier
